@@ -152,6 +152,33 @@ func newSessionWith(client *stubClient, dir string, rootDir string, initOpts any
 	return s, nil
 }
 
+var (
+	versionsMu sync.Mutex
+	versions   = map[*session]map[protocol.DocumentURI]int32{}
+)
+
+func (s *session) setVersion(uri protocol.DocumentURI, v int32) {
+	versionsMu.Lock()
+	defer versionsMu.Unlock()
+	if versions[s] == nil {
+		versions[s] = map[protocol.DocumentURI]int32{}
+	}
+	versions[s][uri] = v
+}
+
+func (s *session) nextVersion(uri protocol.DocumentURI) int32 {
+	versionsMu.Lock()
+	defer versionsMu.Unlock()
+	if versions[s] == nil {
+		versions[s] = map[protocol.DocumentURI]int32{}
+	}
+	if versions[s][uri] == 0 {
+		versions[s][uri] = 1
+	}
+	versions[s][uri]++
+	return versions[s][uri]
+}
+
 func (s *session) watch(uri protocol.DocumentURI)   { route(string(uri), s.ctl.hook) }
 func (s *session) unwatch(uri protocol.DocumentURI) { route(string(uri), nil) }
 
@@ -159,6 +186,8 @@ func (s *session) open(uri protocol.DocumentURI, text string) error {
 	s.ctl.mu.Lock()
 	n := s.ctl.started[string(uri)] + 1
 	s.ctl.mu.Unlock()
+	// the version belongs to the open session: it starts at 1 with every didOpen and grows by one with every didChange
+	s.setVersion(uri, 1)
 	if err := s.srv.DidOpen(context.Background(), &protocol.DidOpenTextDocumentParams{TextDocument: protocol.TextDocumentItem{URI: uri, Version: 1, Text: text}}); err != nil {
 		return err
 	}
@@ -176,12 +205,26 @@ func (s *session) change(uri protocol.DocumentURI, changes []protocol.TextDocume
 		n++
 	}
 	if err := s.srv.DidChange(context.Background(), &protocol.DidChangeTextDocumentParams{
-		TextDocument:   protocol.VersionedTextDocumentIdentifier{TextDocumentIdentifier: protocol.TextDocumentIdentifier{URI: uri}, Version: 2},
+		TextDocument:   protocol.VersionedTextDocumentIdentifier{TextDocumentIdentifier: protocol.TextDocumentIdentifier{URI: uri}, Version: s.nextVersion(uri)},
 		ContentChanges: changes}); err != nil {
 		return err
+	}
+	// a change the server does not act on starts no job at all: that is the caller's business (the mirror text tells),
+	// not a failure of the harness
+	if !waitUntil(noJobWait, func() bool {
+		s.ctl.mu.Lock()
+		defer s.ctl.mu.Unlock()
+		return s.ctl.started[string(uri)] >= n
+	}) {
+		return errNoJob
 	}
 	if !s.ctl.waitJobs(string(uri), n, 60*time.Second) {
 		return fmt.Errorf("background job after didChange did not finish")
 	}
 	return nil
 }
+
+var errNoJob = fmt.Errorf("no background job started after didChange")
+
+// how long a didChange may take to start its background job (the job is started before DidChange returns)
+var noJobWait = 5 * time.Second
